@@ -2,6 +2,8 @@
 (msdparser's escaping gaps are outside the domain of C01-C04 and tracked as known findings), text generators."""
 import random
 
+PY_SPACES = ["\t", "\x0b", "\x0c", "\x1c", "\x1d", "\x1e", "\x1f", " ", "\x85", "\xa0", "\u1680", "\u2000", "\u2003", "\u2009",
+             "\u200a", "\u2028", "\u2029", "\u202f", "\u205f", "\u3000"]
 SPECIALS = [":", ";", "\\", "/", "//", "#", "\n", "\r\n", " ", "\t", "=", ",", "[", "]", "&", "*"]
 WORDS = ["a", "B", "song", "0.000", "1", "dance-single", "Hard", "漢字", "かな", "한", "😀", "é", "x y", "-1.5", "0000"]
 SM_KEYS = ["TITLE", "SUBTITLE", "ARTIST", "CREDIT", "BANNER", "BACKGROUND", "MUSIC", "OFFSET", "BPMS", "STOPS", "FREEZES",
@@ -100,7 +102,7 @@ def edit_sm(rng, sf, steps):
     attrs = ["title", "artist", "stops", "bgchanges", "attacks", "displaybpm", "music", "offset", "bpms"]
     for _ in range(steps):
         op = rng.choice(["setkey", "setkey", "setattr", "delkey", "delattr", "addchart", "delchart", "reverse", "replacechart",
-                         "editchart", "editchart", "extradata", "insertchart"])
+                         "editchart", "editchart", "extradata", "insertchart", "serialize", "extradata_inplace"])
         try:
             if op == "setkey":
                 k = rng.choice(SM_KEYS); v = rand_multi(rng) if k in ("ATTACKS", "DISPLAYBPM") and rng.random() < .7 else rand_value(rng)
@@ -137,6 +139,20 @@ def edit_sm(rng, sf, steps):
                 if rng.random() < .5: setattr(c, f, v)
                 else: c[f.upper()] = v
                 log.append(["editchart", f, v])
+            elif op == "serialize":
+                # the object has been written out (and a chart on its own) before the later edits: a serializer that
+                # remembers anything from an earlier call shows up as a stale text at the end of the script
+                str(sf)
+                if sf.charts: str(rng.choice(sf.charts))
+                log.append(["serialize"])
+            elif op == "extradata_inplace" and sf.charts:
+                c = rng.choice(sf.charts)
+                if c.extradata:
+                    how = rng.choice(["append", "setitem", "pop"])
+                    if how == "append": c.extradata.append(rand_extradata(rng))
+                    elif how == "setitem": c.extradata[rng.randrange(len(c.extradata))] = rand_extradata(rng)
+                    elif len(c.extradata) > 1: c.extradata.pop(rng.randrange(len(c.extradata)))
+                    log.append(["extradata_inplace", how, list(c.extradata)])
             elif op == "extradata" and sf.charts:
                 c = rng.choice(sf.charts)
                 c.extradata = rng.choice([None, [rand_extradata(rng)], [rand_extradata(rng), rand_extradata(rng)]])
@@ -164,7 +180,7 @@ def edit_ssc(rng, sf, steps):
     shared = rand_value(rng, allow_none=False, short=True)      # one string object assigned to several properties
     for _ in range(steps):
         op = rng.choice(["setkey", "setkey", "setattr", "delkey", "addchart", "delchart", "reverse", "editchart", "editchart",
-                         "editchart", "chartdel", "shared", "notespos"])
+                         "editchart", "chartdel", "shared", "notespos", "serialize"])
         try:
             if op == "setkey":
                 k = rng.choice(SM_KEYS + ["ORIGIN", "JACKET", "COMBOS"]); v = rand_multi(rng) if k in ("ATTACKS", "DISPLAYBPM") and rng.random() < .7 else rand_value(rng)
@@ -184,6 +200,13 @@ def edit_ssc(rng, sf, steps):
                 sf.charts.insert(rng.randrange(len(sf.charts) + 1), c); log.append(["addchart", nk])
             elif op == "delchart" and sf.charts:
                 sf.charts.pop(rng.randrange(len(sf.charts))); log.append(["delchart"])
+            elif op == "serialize":
+                try:
+                    str(sf)
+                    if sf.charts: str(rng.choice(sf.charts))
+                except Exception:
+                    pass                      # a chart without note data cannot be written; the later edits may add it
+                log.append(["serialize"])
             elif op == "reverse":
                 sf.charts.reverse(); log.append(["reverse"])
             elif op in ("editchart", "shared") and sf.charts:
@@ -258,6 +281,10 @@ def rand_text(rng, ssc=None):
     def val():
         n = rng.randrange(0, 4)
         s = "".join(rng.choice(["a", "b c", "1.0", "=", ",", nl, "\\:", "\;", "\\\\", "\\#", "/", "漢", " ", "\\//"]) for _ in range(n))
+        if rng.random() < .25:
+            # every character str.strip() removes, not only blank/tab/line break, at the edges (SM chart fields are stripped)
+            ws = lambda: "".join(rng.choice(PY_SPACES) for _ in range(rng.randrange(1, 3)))
+            s = (ws() if rng.random() < .7 else "") + s + (ws() if rng.random() < .7 else "")
         return s
     def param(k=None, comps=None):
         k = key() if k is None else k
